@@ -53,6 +53,8 @@ class Opts:
         self.launch_names = list(vocab.KERNEL_LAUNCHES)
         self.device_sync = True
         self.event_sync = False  # cudaEventSynchronize + Event Sync record (stream -1)
+        self.lead_op = False  # first file entry is a host operator on its own thread at a drawn (possibly late) time
+        self.ensure_kernel = False  # every rank has at least one linked kernel launch
         self.annotations = True
         self.template = False
         self.min_kernels = 0
@@ -160,6 +162,12 @@ def rank_program(draw, o: Opts, rank: int, nsteps: int, first_step: int) -> Dict
     first = {"t": "op", "name": pick(draw, vocab.CPU_OPS), "cat": "cpu_op", "pre": 0, "post": pick(draw, SMALL),
              "min": pick(draw, [1, 2]), "kids": []}
     main = [first] + draw(thread_program(o, streams, True, nsteps, first_step))
+    if o.ensure_kernel:
+        extra = draw(leaf_launch(o, streams))
+        extra["fault"] = "none"
+        main.append(extra)
+    if o.lead_op and pick(draw, [True, True, False]):
+        prog["lead"] = {"ts": pick(draw, [40, 25, 12, 0, 70]), "dur": pick(draw, [1, 3, 0])}
     prog["threads"].append({"tid_off": 0, "start": 0, "items": main})
     if o.second_thread and pick(draw, [False, False, True]):
         o2 = Opts(**{**o.__dict__, "w_sync": 0, "device_sync": False, "w_launch": o.w_launch if not o.device_sync else 0})
@@ -263,6 +271,9 @@ class Sim:
 
 def simulate_rank(prog: Dict[str, Any], epoch: int) -> Sim:
     sim = Sim(prog["rank"], epoch)
+    if "lead" in prog:
+        # tid below every other host tid so that it is sequence 0 of the merge (first file entry)
+        sim._host(sim.hpid - 1, "cpu_op", "aten::empty", prog["lead"]["ts"], prog["lead"]["ts"] + prog["lead"]["dur"], {})
     for th in prog["threads"]:
         tid = sim.hpid + th["tid_off"]
         clock = prog["start"] + th["start"]
